@@ -204,6 +204,10 @@ pub struct ClockModel {
     pub read_step: u64,
     pub precision_override: Option<u128>,
     pub overheads: [u128; 4],
+    /// If above 1, reads show the counter rounded down to a multiple of
+    /// this many ticks (a counter that advances in uniform steps while
+    /// reading it costs `read_step`). 0 = off.
+    pub quantum: u64,
 }
 
 pub(crate) struct State {
@@ -608,6 +612,7 @@ impl Sched {
         op: Op,
         effect: impl FnOnce(&mut State) -> R,
     ) -> R {
+        let _tally = TallyGuard::new();
         {
             let mut st = self.m.lock().unwrap_or_else(|e| e.into_inner());
             if st.outcome.is_some() {
@@ -634,6 +639,7 @@ impl Sched {
     /// Runs `f` on the model state without a scheduling point (the caller
     /// holds the baton, so this is atomic with respect to other threads).
     pub(crate) fn with_state<R>(&self, f: impl FnOnce(&mut State) -> R) -> R {
+        let _tally = TallyGuard::new();
         let mut st = self.m.lock().unwrap_or_else(|e| e.into_inner());
         f(&mut st)
     }
@@ -671,6 +677,42 @@ impl Sched {
             .push(ThreadSt { status: Status::Pending(Op::Step), token: false });
         st.threads.len() - 1
     }
+}
+
+/// Restores the current thread's allocation tally on drop, so that whatever
+/// the scheduler, the hooks or harness bookkeeping allocate in between does
+/// not show up in the tallies divan reads (the process may run with
+/// `AllocProfiler` as its global allocator, see `untracked`).
+pub struct TallyGuard {
+    saved: Option<(::std::ptr::NonNull<crate::alloc::ThreadAllocInfo>, crate::alloc::ThreadAllocInfo)>,
+}
+
+impl TallyGuard {
+    #[inline]
+    pub fn new() -> Self {
+        let saved = crate::alloc::ThreadAllocInfo::try_current().map(|p| {
+            // SAFETY: Thread-local, read on the owning thread.
+            (p, unsafe { p.as_ref() }.clone())
+        });
+        Self { saved }
+    }
+}
+
+impl Drop for TallyGuard {
+    #[inline]
+    fn drop(&mut self) {
+        if let Some((mut p, saved)) = self.saved.take() {
+            // SAFETY: Thread-local, written on the owning thread.
+            unsafe { *p.as_mut() = saved };
+        }
+    }
+}
+
+/// Runs `f` (harness bookkeeping) without leaving a trace in the current
+/// thread's allocation tally.
+pub fn untracked<R>(f: impl FnOnce() -> R) -> R {
+    let _guard = TallyGuard::new();
+    f()
 }
 
 /// Logs a user-level event; a scheduling point. No-op on unmanaged threads.
